@@ -280,6 +280,7 @@ def run(ctx):
     ctx.count("corpus-programs", len(corpus))
     records = progcases.run_cases(ctx, corpus + make_cases(ctx, n, big=True))
     canon_tie(ctx, records)
+    progcases.run_cases(ctx, gen.membership_cases(ctx.rng, 60 if ctx.tier == 'quick' else 1500), check_model=False, want_stages=False)
     run_k1(ctx)
 
 
